@@ -992,3 +992,107 @@ def end_runs_before_eof(ctx, rule, which):
         if "set self.at_eof" not in names[:i_run]:
             bad = bad or "the final run happens before the end-of-input flag is set"
     ctx.ob(rule, "end-runs-the-machine-before-eof-step/%s" % which, bad is None and n >= 2, bad or "%d paths: at_eof := true; run(queue); then eof_step" % n, "%s tokenizer end" % which)
+
+
+def preprocess_transcription(ctx, rule, which):
+    """'Preprocessing the input stream' as a function of (the character read, the pending-CR flag, the character behind a
+    skipped LF), transcribed here and compared with every cell of get_preprocessed_char's table:
+
+      flag set on entry: flag := false; if the character is LF it is skipped and the NEXT character is taken in its place
+                         (none available: answer None), and everything below applies to that character
+      CR   -> the answer is LF and the flag is set            (CR LF and a bare CR both give one LF)
+      NUL  -> xml5ever: U+FFFD;  html5ever: unchanged (the states decide)
+      else -> unchanged
+      the answer is recorded as the current character; html5ever counts a line exactly when the answer is LF.
+
+    Every path that answers a character has consulted the flag (an early return in front of it leaves a pending CR armed)."""
+    T = ctx.tables(which)
+    cells = T["helpers"].get("get_preprocessed_char")
+    if not cells:
+        raise AnchorMissing("%s get_preprocessed_char not tabulated" % which)
+    bad = {}
+    n = 0
+    LF, CR, REPL = "'\\n'", "'\\r'", "'�'"
+
+    def lit(x, single):
+        x = str(x)
+        if x.startswith("lit:"):
+            x = x[4:]
+        if x in ("c", "«c»"):
+            if single is None:
+                return "«c»"
+            return repr(chr(single)) if single not in (10, 13) else ("'\\n'" if single == 10 else "'\\r'")
+        return x
+
+    for pc in cells:
+        acq = dict(pc["acq"])
+        pk = acq.get("param c")
+        if not isinstance(pk, (tuple, list)):
+            continue
+        lo, hi = pk
+        single = lo if lo == hi else None
+        g = pc["guards"]
+        ret = str(pc["ret"])
+        acts = [(a, [str(x) for x in args]) for a, args in pc["actions"]]
+        n += 1
+        specials = [x for x in ((10, 13, 0) if which == "xml" else (10, 13)) if lo <= x <= hi]
+        if specials and single is None:
+            bad.setdefault("classes", "U+%04X..U+%04X is treated as one class although it contains U+%04X" % (lo, hi, specials[0]))
+            continue
+        saw = g.get("self.ignore_lf")
+        if ret == "None":
+            if not (saw is True and single == 10 and g.get("input.next() matches Some(_)") is False):
+                bad.setdefault("none", "answers None for U+%04X.. with guards %s: only a skipped LF with nothing behind it has no answer" % (lo, list(g)[:3]))
+            continue
+        if saw is None:
+            bad.setdefault("flag-not-consulted", "a character (U+%04X..U+%04X, guards %s) is answered without consulting the pending-CR flag: after CR such a character leaves the flag armed and the LF behind it is dropped" % (lo, hi, [k for k in g][:2]))
+            continue
+        if saw and single == 10:
+            if g.get("input.next() matches Some(_)") is not True:
+                bad.setdefault("skip", "LF after CR is not replaced by the next character")
+                continue
+            is_cr = g.get("input.next().0 matches '\\r'")
+            if is_cr is None:
+                bad.setdefault("refetched-cr", "the character read in place of a skipped LF is not examined for CR")
+                continue
+            e = "cr" if is_cr else "other"
+            if which == "xml" and not is_cr:
+                is_nul = g.get("input.next().0 matches '\\x00'")
+                if is_nul is None:
+                    bad.setdefault("refetched-nul", "the character read in place of a skipped LF is not examined for U+0000: CR LF NUL yields a raw U+0000 where NUL alone yields U+FFFD")
+                    continue
+                if is_nul:
+                    e = "nul"
+            want = {"cr": LF, "nul": REPL, "other": "input.next().0"}[e]
+            if e == "other" and g.get("input.next().0 matches «c»") is True:
+                want_alt = LF  # the re-fetched character is itself LF
+            else:
+                want_alt = None
+        else:
+            e = "cr" if single == 13 else "nul" if (single == 0 and which == "xml") else "other"
+            want = {"cr": LF, "nul": REPL}.get(e) or lit("«c»", single)
+            want_alt = None
+        m = re.fullmatch(r"Some\((.*)\)", ret)
+        got = lit(m.group(1), single) if m else ret
+        if got != want and got != want_alt and not (want == "input.next().0" and got == "input.next().0"):
+            bad.setdefault("answer/" + e, "for %s (flag %s) the answer is %s, expected %s" % ("U+%04X" % lo if single is not None else "U+%04X..U+%04X" % (lo, hi), saw, got, want))
+        cur = [lit(a[1][0], single) for a in acts if a[0] == "set self.current_char"]
+        if cur != [got]:
+            bad.setdefault("current-char", "the current character is recorded as %s while %s is answered" % (cur, got))
+        flags = [a[1][0] for a in acts if a[0] == "set self.ignore_lf"]
+        if saw and (not flags or flags[0] != "false"):
+            bad.setdefault("flag-cleared", "the pending-CR flag was found set and is not cleared first")
+        final = flags[-1] if flags else None
+        if e == "cr" and final != "true":
+            bad.setdefault("flag-set", "CR does not leave the pending-CR flag set")
+        if e != "cr" and final == "true":
+            bad.setdefault("flag-set", "the pending-CR flag is set by a character other than CR")
+        if which == "html":
+            counted = sum(1 for a in acts if a[0] == "set self.current_line")
+            is_lf_answer = got == LF or (want_alt == LF and got in (LF, "input.next().0"))
+            if (counted == 1) != bool(is_lf_answer) or counted > 1:
+                bad.setdefault("line-count", "for U+%04X (flag %s) the line is counted %d time(s) while the answer %s a line feed" % (lo, saw, counted, "is" if is_lf_answer else "is not"))
+    for k, d in sorted(bad.items()):
+        ctx.ob(rule, "preprocessing/%s/%s" % (which, k), False, d, "%s tokenizer get_preprocessed_char" % which)
+    ctx.ob(rule, "preprocessing/%s" % which, not bad and n >= 100, ("%d cells agree with the transcription of 'preprocessing the input stream'" % n) if not bad else ("%d cells compared, %d kind(s) of disagreement" % (n, len(bad))), "%s tokenizer get_preprocessed_char" % which)
+    return n
